@@ -27,7 +27,7 @@ PROPERTY = "C08"
 # exposes FACTORIES (names of harness factories, injected here so that the runner resolves them), jobs(tier, seed) and
 # BOUNDS_NOTE / OUTSIDE_NOTE / ASSUMPTIONS_NOTE strings that are appended to this module's evidence texts
 _EXTRA_ISA = []
-for _name in ("_c08_mips", "_c08_thumb", "_c08_msp430"):
+for _name in ("_c08_mips", "_c08_thumb", "_c08_msp430", "_c08_avr", "_c08_or1k", "_c08_microblaze", "_c08_m68k", "_c08_xtensa"):
     try:
         _m = __import__("props." + _name, fromlist=["*"])
     except ImportError:
